@@ -1,0 +1,42 @@
+//go:build verif
+
+package verifhook
+
+import "sync/atomic"
+
+// Enabled tells whether hooks are compiled in.
+const Enabled = true
+
+// Handler receives hook calls. A non-nil error returned for a Fault point is injected at the call site; it is ignored for Point.
+type Handler func(name string, args ...any) error
+
+var handler atomic.Pointer[Handler]
+
+// Set installs the handler (nil removes it) and returns the previous one.
+func Set(h Handler) Handler {
+	var prev *Handler
+	if h == nil {
+		prev = handler.Swap(nil)
+	} else {
+		prev = handler.Swap(&h)
+	}
+	if prev == nil {
+		return nil
+	}
+	return *prev
+}
+
+// Point marks a named point in the code.
+func Point(name string, args ...any) {
+	if h := handler.Load(); h != nil {
+		_ = (*h)(name, args...)
+	}
+}
+
+// Fault marks a named point at which the harness may inject an error.
+func Fault(name string, args ...any) error {
+	if h := handler.Load(); h != nil {
+		return (*h)(name, args...)
+	}
+	return nil
+}
